@@ -216,6 +216,20 @@ func (g *gen) ops() []Op {
 		}
 		out = append(out, op)
 	}
+	if g.c.Remote && len(g.c.Idx) > 0 && chance(t, "mergeIndexMerge", 25) {
+		// structured tail: a remote commit is merged, an index is created or dropped, further remote commits are merged
+		// (the index list is part of what a node may cache per collection between merges)
+		out = append(out, Op{Kind: "rcreate", Doc: g.doc(true)}, Op{Kind: "push", Last: true},
+			Op{Kind: "toggleindex", N: rapid.IntRange(0, 30).Draw(t, "tailIndex")})
+		for k, n := 0, rapid.IntRange(1, 3).Draw(t, "tailWrites"); k < n; k++ {
+			if chance(t, "tailCreate", 40) {
+				out = append(out, Op{Kind: "rcreate", Doc: g.doc(true)})
+			} else {
+				out = append(out, Op{Kind: "rupdate", N: rapid.IntRange(0, 30).Draw(t, "target"), Doc: g.doc(false)})
+			}
+			out = append(out, Op{Kind: "push", Last: true})
+		}
+	}
 	return out
 }
 
